@@ -8,6 +8,8 @@ for s in "${ids[@]}"; do
   out=$(tools/try_seed.sh "$p" seeded/$s/patch.diff quick 2>&1)
   rc=$?
   { echo "seed=$s property=$p check='./check $p --tier quick' exit=$rc repo=$(git -C /repo rev-parse --short HEAD) verif=$(git rev-parse --short HEAD)";
+    rp=$(echo "$out" | grep -oE 'replay=[^ ]+' | head -1 | cut -d= -f2)
+    [ -n "$rp" ] && [ -f "$rp" ] && jq -c '{kind, stream, what, n_disagreements: ((.disagreements // [])|length), broken: [.broken[]? | .kind + ":" + ((.module // .stream // "")|tostring)]}' "$rp" | sed 's/^/detected: /'
     echo "$out" | grep -E '^(VIOLATION|KNOWN-FINDING|BROKEN|broken|  witness|witness)' | sed 's#/tmp/seed-evidence-[0-9]*#evidence#' | head -12; } > seeded/$s/trial.txt
   echo "$s exit=$rc $(grep -c '^VIOLATION' seeded/$s/trial.txt) violation line(s)$(grep -q no-failing-input-found seeded/$s/trial.txt && echo ' NO-FAILING-INPUT')"
 done
